@@ -4,7 +4,8 @@
 (*                                                                         *)
 (* L0  vocabulary (shared with the JSON projection the driver logs):       *)
 (*   account  a  = [vf, ex       validity window, None = -1 when absent    *)
-(*                  sess : sid -> [st : "exp"|"never"|"rev", exp, cred],   *)
+(*                  sess : sid -> [st : "exp"|"never"|"rev", exp, cred,    *)
+(*                                 rt (time of revocation, else None)],     *)
 (*                  api  : sid -> [exp],                                    *)
 (*                  o2   : oid -> [st, parent (sid|"none"), iat],           *)
 (*                  creds: sequence of credential ids on the account]      *)
@@ -20,7 +21,8 @@
 (***************************************************************************)
 EXTENDS Integers, FiniteSets, Sequences, TLC
 
-CONSTANTS Grace        \* AUTH_TOKEN_GRACE_WINDOW (300 s in the implementation)
+CONSTANTS Grace,       \* AUTH_TOKEN_GRACE_WINDOW (300 s in the implementation)
+          MaxAge       \* CHANGELOG_MAX_AGE: revoked session records older than this are trimmed
 
 None == -1
 Range(f) == {f[x] : x \in DOMAIN f}
@@ -125,13 +127,17 @@ L2Present(tk, st, t) ==
 \* SessionConsistency::modify_inner runs on every modify of the account at time now:
 \* live sessions whose credential is gone are revoked, then sessions at/past expiry are revoked,
 \* then orphaned / expired OAuth2 sessions are revoked.
+\* Before that, Entry::invalidate trims revoked session records whose revocation is older than the
+\* changelog window (valueset trim).
 Plugin(a, now) ==
-  LET s1 == [s \in DOMAIN a.sess |->
-               IF a.sess[s].st # "rev" /\ a.sess[s].cred \notin CredsOf(a)
-               THEN [a.sess[s] EXCEPT !.st = "rev", !.exp = None] ELSE a.sess[s]]
+  LET keep == {s \in DOMAIN a.sess : ~(a.sess[s].st = "rev" /\ a.sess[s].rt < now - MaxAge)}
+      s0 == [s \in keep |-> a.sess[s]]
+      s1 == [s \in DOMAIN s0 |->
+               IF s0[s].st # "rev" /\ s0[s].cred \notin CredsOf(a)
+               THEN [s0[s] EXCEPT !.st = "rev", !.exp = None, !.rt = now] ELSE s0[s]]
       s2 == [s \in DOMAIN s1 |->
                IF s1[s].st = "exp" /\ s1[s].exp <= now
-               THEN [s1[s] EXCEPT !.st = "rev", !.exp = None] ELSE s1[s]]
+               THEN [s1[s] EXCEPT !.st = "rev", !.exp = None, !.rt = now] ELSE s1[s]]
       a2 == [a EXCEPT !.sess = s2]
       o2 == [o \in DOMAIN a.o2 |->
                IF a.o2[o].st = "rev" THEN a.o2[o]
@@ -147,14 +153,14 @@ Plugin(a, now) ==
 
 \* process_authsessionrecord: append the session (no effect if the id is already present), plugin runs
 DoApply(a, sid, exp, cred, now) ==
-  LET rec == [st |-> IF exp = None THEN "never" ELSE "exp", exp |-> exp, cred |-> cred]
+  LET rec == [st |-> IF exp = None THEN "never" ELSE "exp", exp |-> exp, cred |-> cred, rt |-> None]
       ns  == IF sid \in DOMAIN a.sess THEN a.sess
              ELSE [s \in DOMAIN a.sess \cup {sid} |-> IF s = sid THEN rec ELSE a.sess[s]]
   IN  Plugin([a EXCEPT !.sess = ns], now)
 
 DoRevoke(a, sid, now) ==
   Plugin([a EXCEPT !.sess = [s \in DOMAIN a.sess |->
-            IF s = sid /\ a.sess[s].st # "rev" THEN [a.sess[s] EXCEPT !.st = "rev", !.exp = None]
+            IF s = sid /\ a.sess[s].st # "rev" THEN [a.sess[s] EXCEPT !.st = "rev", !.exp = None, !.rt = now]
             ELSE a.sess[s]]], now)
 
 DoSetCreds(a, cs, now) == Plugin([a EXCEPT !.creds = cs], now)
